@@ -29,7 +29,7 @@ def covE (r : Except String (List (Matrix X X K × Nat))) : Matrix X X K :=
 variable (isReal : K → Bool) (re : K → K) (blocks : Nat → List (Matrix X X K) → Matrix X X K)
   (leaf : Nat → Nat → Matrix X X K)
   (sqrt : K → K) (kneg : K → Bool) (dcomplex dminneg dminzero : (X → K) → Bool)
-  (blockRow : Nat → Nat → Matrix X X K → Matrix X X K)
+  (blockRow : Nat → Nat → Matrix X X K → Matrix X X K) (mkeys : Nat → List Nat)
 
 /-- the Mathlib instantiation of the sampling model -/
 noncomputable def mssem : SSem K (X → K) (Matrix X X K) :=
@@ -41,9 +41,9 @@ noncomputable def mssem : SSem K (X → K) (Matrix X X K) :=
     dMinNeg := dminneg
     dMinZero := dminzero
     blockRow := blockRow
-    multiKeys := fun _ => [] }
+    multiKeys := mkeys }
 
-local notation "SS" => mssem isReal re blocks leaf sqrt kneg dcomplex dminneg dminzero blockRow
+local notation "SS" => mssem isReal re blocks leaf sqrt kneg dcomplex dminneg dminzero blockRow mkeys
 local notation "S0" => msem isReal re blocks leaf
 
 /-- independent draws add their covariances -/
@@ -65,9 +65,9 @@ def Admissible (c : K) : Prop := isReal c = true ∧ kneg c = false
 
 /-- ScalingOperator, forward draw: `A Aᴴ = c · 1` -/
 theorem scaling_cov (hsqrt : ∀ c, Admissible isReal kneg c → sqrt c * sqrt c = c ∧ star (sqrt c) = sqrt c)
-    (d : Nat) (c : K) (dt : Nat) (l : List (Matrix X X K × Nat))
+    (d : Nat) (c : K) (dt : Nat) (l : List (Matrix X X K × Nat)) (hmk : mkeys d = [])
     (h : sampler SS (Op.scaling d c dt) false = .ok l) : cov l = c • (1 : Matrix X X K) := by
-  simp only [sampler, mssem, msem] at h
+  simp only [sampler, mssem, msem, hmk] at h
   split at h
   · cases h
   · split at h
@@ -83,9 +83,9 @@ theorem scaling_cov (hsqrt : ∀ c, Admissible isReal kneg c → sqrt c * sqrt c
 
 /-- ScalingOperator, inverse draw: `A Aᴴ = c⁻¹ · 1` (and `c = 0` is refused) -/
 theorem scaling_inv_cov (hsqrt : ∀ c, Admissible isReal kneg c → sqrt c * sqrt c = c ∧ star (sqrt c) = sqrt c)
-    (d : Nat) (c : K) (dt : Nat) (l : List (Matrix X X K × Nat))
+    (d : Nat) (c : K) (dt : Nat) (l : List (Matrix X X K × Nat)) (hmk : mkeys d = [])
     (h : sampler SS (Op.scaling d c dt) true = .ok l) : cov l = c⁻¹ • (1 : Matrix X X K) ∧ c ≠ 0 := by
-  simp only [sampler, mssem, msem] at h
+  simp only [sampler, mssem, msem, hmk] at h
   split at h
   · cases h
   · split at h
@@ -256,14 +256,14 @@ where
 theorem scaling_refuses_iff (d : Nat) (c : K) (dt : Nat) (fi : Bool) :
     (∃ e, sampler SS (Op.scaling d c dt) fi = .error e) ↔
       (dt = 0 ∨ isReal c = false ∨ kneg c = true ∨ (c = 0 ∧ fi = true)) := by
-  simp only [sampler, mssem, msem]
-  by_cases h1 : dt = 0
-  · simp [h1]
-  · by_cases h2 : isReal c = false
-    · simp [h1, h2]
-    · by_cases h3 : kneg c = true
-      · simp [h1, h3]
-      · by_cases h4 : c = 0 <;> cases fi <;> simp_all
+  cases hm : mkeys d <;> simp only [sampler, mssem, msem, hm] <;>
+  (by_cases h1 : dt = 0
+   · simp [h1]
+   · by_cases h2 : isReal c = false
+     · simp [h1, h2]
+     · by_cases h3 : kneg c = true
+       · simp [h1, h3]
+       · by_cases h4 : c = 0 <;> cases fi <;> simp_all)
 
 /-- refusal logic of DiagonalOperator.draw_sample / process_sample -/
 theorem diag_refuses_iff (dm : Nat) (d : X → K) (t dt : Nat) (fi : Bool) :
@@ -282,5 +282,115 @@ theorem diag_refuses_iff (dm : Nat) (d : X → K) (t dt : Nat) (fi : Bool) :
 theorem sum_refuses_iff (ops : List (Op K (X → K))) (neg : List Bool) :
     sampler SS (Op.sum ops neg) true = .error "NotImplementedError" := by
   rw [sampler]; rfl
+
+
+/-! ### block-diagonal operators, scalings on multi-domains, complex sampling dtypes -/
+
+section blocks
+variable (E : Nat → Nat → Matrix X X K)
+
+/-- block-diagonal assembly through embeddings `E dm k` of the sub-domains of multi-domain `dm`: `Σ_k E_k A_k E_kᴴ` -/
+def blocksE (dm : Nat) (l : List (Matrix X X K)) : Matrix X X K :=
+  (((List.range l.length).zip l).map fun p => E dm p.1 * p.2 * (E dm p.1)ᴴ).sum
+
+local notation "SB" => mssem isReal re (blocksE E) leaf sqrt kneg dcomplex dminneg dminzero (fun dm k A => E dm k * A) mkeys
+
+theorem seqAll_map_cov (dm : Nat) (f : Nat × Except String (List (Matrix X X K × Nat)) → Except String (List (Matrix X X K × Nat)))
+    (hf1 : ∀ k l, f (k, .ok l) = .ok (l.map fun q => (E dm k * q.1, q.2))) (hf2 : ∀ k e, f (k, .error e) = .error e)
+    (rs : List (Except String (List (Matrix X X K × Nat)))) (off : Nat) (l : List (Matrix X X K × Nat))
+    (h : seqAll (((List.range' off rs.length).zip rs).map f) = .ok l) :
+    cov l = (((List.range' off rs.length).zip (rs.map covE)).map fun p => E dm p.1 * p.2 * (E dm p.1)ᴴ).sum := by
+  induction rs generalizing off l with
+  | nil => simp only [List.length_nil, List.range'_zero, List.zip_nil_left, List.map_nil, seqAll] at h
+           injection h with h; subst h; simp [cov]
+  | cons r rs ih =>
+    simp only [List.length_cons, List.range'_succ, List.zip_cons_cons, List.map_cons] at h ⊢
+    cases r with
+    | error e => rw [hf2] at h; simp [seqAll] at h
+    | ok l1 =>
+      rw [hf1] at h
+      simp only [seqAll] at h
+      split at h
+      · rename_i l2 h2
+        injection h with h; subst h
+        rw [cov_append, ih (off + 1) l2 h2, cov_map_mul]
+        simp [covE]
+      · cases h
+
+/-- **BlockDiagonalOperator.draw_sample**: the entries are drawn independently in key order and placed into the multi-field;
+    the covariance is the block-diagonal assembly of the entries' covariances (a missing entry refuses) -/
+theorem blockdiag_cov (dm : Nat) (ents : List (Op K (X → K))) (fi : Bool) (l : List (Matrix X X K × Nat))
+    (h : sampler SB (Op.blockdiag dm ents) fi = .ok l) :
+    cov l = blocksE E dm (ents.map fun e => covE (sampler SB e fi)) := by
+  rw [sampler] at h
+  rw [List.range_eq_range'] at h
+  have h' := seqAll_map_cov E dm _ (fun k l => rfl) (fun k e => rfl) (ents.map fun e => sampler SB e fi) 0 l h
+  rw [h']
+  simp only [blocksE, List.range_eq_range', List.map_map, List.length_map]
+  rfl
+
+/-- **ScalingOperator on a multi-domain**: one independent draw per key; when the embeddings resolve the identity
+    (`Σ_k E_k E_kᴴ = 1`) the covariance is `c·1` (forward) -/
+theorem scaling_multi_cov (hsqrt : ∀ c, Admissible isReal kneg c → sqrt c * sqrt c = c ∧ star (sqrt c) = sqrt c)
+    (d : Nat) (c : K) (dt : Nat) (l : List (Matrix X X K × Nat)) (hmk : mkeys d ≠ [])
+    (hE : (((List.range (mkeys d).length).zip (mkeys d)).map fun p => E d p.1 * (E d p.1)ᴴ).sum = 1)
+    (h : sampler SB (Op.scaling d c dt) false = .ok l) : cov l = c • (1 : Matrix X X K) := by
+  cases hm : mkeys d with
+  | nil => exact absurd hm hmk
+  | cons k0 ks =>
+    rw [hm] at hE
+    simp only [sampler, mssem, msem, hm] at h
+    split at h
+    · cases h
+    · split at h
+      · cases h
+      · rename_i h2
+        simp only [Bool.or_eq_true, Bool.not_eq_true', Bool.and_eq_true, not_or] at h2
+        obtain ⟨⟨hr, hn⟩, _⟩ := h2
+        obtain ⟨hs, hst⟩ := hsqrt c ⟨by simpa using hr, by simpa using hn⟩
+        injection h with h; subst h
+        have hterm : ∀ p : Nat × Nat, E d p.1 * (sqrt c • (1 : Matrix X X K)) * (E d p.1 * (sqrt c • (1 : Matrix X X K)))ᴴ =
+            c • (E d p.1 * (E d p.1)ᴴ) := by
+          intro p
+          rw [Matrix.conjTranspose_mul, Matrix.conjTranspose_smul, Matrix.conjTranspose_one, hst]
+          simp only [Matrix.mul_smul, Matrix.smul_mul, Matrix.mul_one, Matrix.one_mul, smul_smul, hs]
+        have key : cov (List.map (fun x : Nat × Nat => (E d x.1 * (sqrt c • (1 : Matrix X X K)), dt))
+            ((List.range (k0 :: ks).length).zip (k0 :: ks))) =
+            c • (List.map (fun p : Nat × Nat => E d p.1 * (E d p.1)ᴴ) ((List.range (k0 :: ks).length).zip (k0 :: ks))).sum := by
+          rw [List.smul_sum, List.map_map]
+          unfold cov
+          rw [List.map_map]
+          congr 1
+          apply List.map_congr_left
+          intro p _
+          exact hterm p
+        simp only [Bool.false_eq_true, if_false] at key ⊢
+        rw [hE] at key
+        exact key
+
+/-! #### complex sampling dtypes: `E[s sᴴ] = Σ_k κ_k A_k A_kᴴ` with `κ = 2` for a complex draw (unit variance per real and imaginary part),
+and the pseudo-covariance `E[s sᵀ] = Σ_{real draws} A_k A_kᵀ` (a circular complex draw contributes 0) -/
+
+def covC (l : List (Matrix X X K × Nat)) : Matrix X X K :=
+  (l.map fun p => (if p.2 = 2 then (2 : K) else 1) • (p.1 * p.1ᴴ)).sum
+def pcov (l : List (Matrix X X K × Nat)) : Matrix X X K :=
+  (l.map fun p => if p.2 = 2 then 0 else p.1 * p.1ᵀ).sum
+
+theorem covC_uniform (l : List (Matrix X X K × Nat)) (dt : Nat) (h : ∀ p ∈ l, p.2 = dt) :
+    covC l = (if dt = 2 then (2 : K) else 1) • cov l ∧ (dt = 2 → pcov l = 0) := by
+  induction l with
+  | nil => simp [covC, pcov, cov]
+  | cons p ps ih =>
+    obtain ⟨i1, i2⟩ := ih (fun q hq => h q (by simp [hq]))
+    have hp := h p (by simp)
+    constructor
+    · simp only [covC, cov, List.map_cons, List.sum_cons] at i1 ⊢
+      rw [i1, hp, smul_add]
+    · intro h2
+      simp only [pcov, List.map_cons, List.sum_cons] at i2 ⊢
+      rw [i2 h2, hp, h2]; simp
+
+
+end blocks
 
 end NiftyVerif.C13
